@@ -30,13 +30,22 @@ def set_pregrads(leaves, pre_seed: int, mode: str, scale: float = 1.0):
     if mode == "none":
         return
     rng = random.Random(pre_seed)
+    lay = random.Random(pre_seed ^ 0x5BD1E995)  # separate stream: the layout of an existing .grad never changes its content
     for t in leaves:
         if not t.requires_grad:
             continue
         if mode in ("all", "zeros") or rng.random() < 0.5:
             vals = [rng.uniform(-3, 3) * scale for _ in range(max(1, t.numel()))]
             g = torch.tensor(vals[: t.numel()], dtype=t.dtype).reshape(t.shape)
-            t.grad = torch.zeros_like(g) if mode == "zeros" else g
+            g = torch.zeros_like(g) if mode == "zeros" else g
+            if lay.random() < 0.3 and t.numel() >= 2:
+                # a NON-CONTIGUOUS existing .grad (as left by torch for channels_last weights, or installed by the user as a
+                # strided view of a flat gradient buffer): same values, every other element of a twice larger buffer
+                big = torch.zeros(tuple(t.shape) + (2,), dtype=t.dtype)
+                view = big[..., 0]
+                view.copy_(g)
+                g = view
+            t.grad = g
 
 
 def n_rows(outputs) -> int:
